@@ -12,7 +12,9 @@ def run():
                             ["cmd=nbwalk"]],
         'uplink counter / MIC counter deviates (reuse or wrap)',
         'enumerated: every async procedure (send|join x RX1 x RX2 outcome in {nothing, authentic, MIC-broken, oversize} x fault position none/0..9) followed by a second procedure or Class C listening, and the nb state machine under free-form event sequences; plus seeded random histories with a radio fault at a random call position in half of the async procedures, confirmed/unconfirmed sends, RX1/RX2 hits, timeouts, invalid frames, Class C receptions; every transmitted uplink is decoded by Codec.tla (wire counter = low half, MIC under the full counter) and the counter after every call is compared with Mac.tla (consumed also when the procedure aborts after a successful tx)',
-        macfam.COMMON_ASSUMPTIONS, mc=[("MCFront.tla", "MCFront.cfg", {"workers": 8})])
+        macfam.COMMON_ASSUMPTIONS, mc=[("MCFront.tla", "MCFront.cfg", {"workers": 8}),
+            # the same model with the REAL constants: counters at 0, across the 16-bit roll-over and at 2^32-4 .. 2^32-2
+            ("MCFront.tla", "MCFrontReal.cfg", {"workers": 6})])
 
 
 def replay(path):
